@@ -1,10 +1,10 @@
 SPECIFICATION Spec
 CONSTANTS
   Ns = {4, 6, 8}
-  Rs = {1, 2, 3, 4, 5}
+  Rs = {1, 2, 3, 4}
   Spans = {1, 3, 5}
   Mashes = {1, 2}
-  Tofs = {51, 71, 72, 91, 93, 151, 153}
+  Tofs = {51, 72, 93, 151}
   TofN = 6
   TofR = 2
 INVARIANTS InvGeom InvG2 InvRefuse InvCommute InvSubset InvConserve InvNest InvTofK InvMapDef InvInverse InvExtend InvDownsample
